@@ -281,6 +281,16 @@ def run(chk):
         if kind != 'select':
             continue
         stmts.append((c, sql, sorted(g.features)))
+    # an integration's schema.table that coincides with project.model; single-column ON with another default namespace
+    for dns in ('mindsdb', 'int2', None):
+        for pm in (('list', [('t', 'demo')]), ('legacy', [('t', 'demo')]), ('list', [('t', 'demo'), ('s', 'Demo')])):
+            c = R.Cat([('n', 'int1'), ('n', 'int2')], None, pm, dns)
+            for q in ('int1', 'INT1', '`int1`'):
+                stmts.append((c, 'SELECT * FROM %s.demo.t' % q, ['schema.table=project.model']))
+                stmts.append((c, 'SELECT x FROM %s.demo.t WHERE x > 0 ORDER BY x' % q, ['schema.table=project.model']))
+                stmts.append((c, 'SELECT a.x FROM %s.demo.t AS a JOIN %s.DEMO.s AS b ON a.id = b.id' % (q, q), ['schema.table=project.model']))
+                stmts.append((c, 'SELECT a.x FROM %s.t AS a JOIN %s.s AS b ON b.x' % (q, q), ['on-single-column']))
+                stmts.append((c, 'SELECT a.x FROM %s.t AS a LEFT JOIN %s.s AS b ON b.x WHERE a.y > 0' % (q, q), ['on-single-column']))
     for c, sql, feats in stmts:
         chk.count((c.key(), sql))
         for f in feats:
